@@ -44,7 +44,10 @@ class Layout:
         if self.cfg_glob:
             entries.append(("*" + os.path.splitext(self.cfg_format)[1], ["note: {version}"]))
         text = project.config_file(self.cfg_format, self.old_version, self.vp, entries, commit=commit, tag=False, push=False, extra=extra, variant=self.cfg_variant)[1]
-        return text + ("\n# note: %s\n" % self.old_version if self.cfg_glob else "")
+        text = text + ("\n# note: %s\n" % self.old_version if self.cfg_glob else "")
+        return text.replace("\n", "\r\n") if self.cfg_crlf else text
+
+    cfg_crlf = False                 # the config file itself has CRLF line endings
 
     def materialize(self, root, vcs=None, commit=False, extra=None):
         proj = project.Project(root, vcs=vcs)
@@ -55,10 +58,11 @@ class Layout:
 
 
 def generate(rng, hostile=False, regimes=("lf", "crlf", "cr", "mixed"), max_files=5, max_pats=4, shared=0.5, glob=0.15, partial=0.3, legacy=False,
-             stale=0.0, only_partial=0.0, repeat=0.15, touch=0.3, rglob=0.15, cfgformats=0.35):
+             stale=0.0, only_partial=0.0, repeat=0.15, touch=0.3, rglob=0.15, cfgformats=0.35, bare=0.2):
     """stale: probability that a file still shows an OLDER version (as after a branch switch or a missed update);
     only_partial: probability that a file carries partial patterns only (copyright year, MAJOR.MINOR);
     cfgformats: probability that the configuration lives in setup.cfg or pyproject.toml (after sections of other tools) instead of bumpver.toml;
+    bare: probability that a file gets a bare {version} / {pep440_version} as its last pattern (overlapping earlier matches);
     rglob: probability that a file in a directory is configured through a recursive glob (top/**/name) together with siblings at other depths;
     touch: probability that two occurrences sharing a line are written without anything between them (end of one = start of the other)"""
     from bumpver import v2version
@@ -101,6 +105,12 @@ def generate(rng, hostile=False, regimes=("lf", "crlf", "cr", "mixed"), max_file
         anchored = [r for r in raws if r.startswith("^")]
         raws = [r for r in raws if not r.startswith("^")] + anchored[:1]
         rng.shuffle(raws)
+        bare_raw = None
+        if rng.random() < bare and not any(r.startswith("^") for r in raws) and len(raws) < max_pats + 1:
+            # a bare placeholder as the LAST pattern: on a line where an earlier pattern already matched, its left-most match lies inside that match (the same
+            # place, suppressed); the same text further right on the line is then ordinary surrounding text
+            bare_raw = rng.choice(["{pep440_version}", "{version}"])
+            raws.append(bare_raw)
         def build_text(raws=raws, file_vinfo=file_vinfo):
             regime = rng.choice(list(regimes))
             sep = SEPS["crlf" if regime == "mixed" else regime]
@@ -122,6 +132,12 @@ def generate(rng, hostile=False, regimes=("lf", "crlf", "cr", "mixed"), max_file
                         lines.insert(rng.randrange(len(lines) + 1), [(text, pi)])
                     else:
                         lines.insert(rng.randrange(len(lines) + 1), [(rng.choice(["", "  ", "# "]), None), (text, pi), (rng.choice(["", " tail", "; x"]), None)])
+            if bare_raw:
+                bare_text = render_old(lay.vp, bare_raw, file_vinfo)
+                for ln in lines:
+                    holders = [t for t, p in ln if p is not None and raws[p] != bare_raw and bare_text and bare_text in t]
+                    if holders and all(raws[p] != bare_raw for _t, p in ln if p is not None) and rng.random() < 0.6:
+                        ln.append(("(pip install demo==%s)" % bare_text, None))          # unplaced: looks like an occurrence, is not one
             out_lines = []
             occ = []
             for li, ln in enumerate(lines):
@@ -164,7 +180,7 @@ def generate(rng, hostile=False, regimes=("lf", "crlf", "cr", "mixed"), max_file
         elif rng.random() < glob and "/" in name:
             key = os.path.dirname(name) + "/*" + os.path.splitext(name)[1]
             # the glob covers a sibling file too (same patterns, a text of its own)
-            sibling = os.path.dirname(name) + "/sibling" + os.path.splitext(name)[1]
+            sibling = os.path.dirname(name) + rng.choice(["/sibling", "/.hidden_sibling"]) + os.path.splitext(name)[1]       # a * covers names that start with a dot too
             lay.files[sibling], lay.occ[sibling] = build_text()
             lay.fpats[sibling] = list(raws)
         if len(raws) >= 2 and rng.random() < (repeat if sibling is None else 0.5) and "**" not in key:
@@ -179,9 +195,10 @@ def generate(rng, hostile=False, regimes=("lf", "crlf", "cr", "mixed"), max_file
         else:
             lay.entries.append((key, list(raws)))
     if not legacy and rng.random() < cfgformats:
-        lay.cfg_format = rng.choice(["setup.cfg", "pyproject.toml"])
+        lay.cfg_format = rng.choice(["setup.cfg", "pyproject.toml", "setup.cfg", "pyproject.toml", "pycalver.toml"])      # pycalver.toml with a [pycalver] section: written by the tool's predecessor
         lay.cfg_variant = rng.randrange(3)
     lay.cfg_glob = (not legacy) and rng.random() < 0.12
+    lay.cfg_crlf = rng.random() < 0.15
     lay.unconfigured = {"NOTES.txt": "notes about %s\n" % old, ".hidden": old + "\r\n", "src/other.py": "# %s\n" % old}
     return lay
 
